@@ -48,4 +48,27 @@ TABLE["C17"] = ("E2", E2N,
 TABLE["C18"] = ("E2", E2N,
     "Same exploration as C17; reference monitor (counter of dequeued failure-origin restarts, per-tick restart set): -1 exactly when the counter reaches max_fails>=1, reload-all restarts each slot exactly once in the tick that handles it without touching the counter, shutdown signals every live current worker exactly once and nothing else, no start afterwards, status None, start() never raises.",
     E2NOTE, "DESIGN.md 2.2, 3/C17-C18")
+E3G = "explicit-state enumeration of operation/attempt histories of the real API vs reference model"
+E3NOTE = "Small-scope claim: every member of the stated finite grammar is run through the real public entry points and compared with a reference model that shares no code with taskiq; nothing outside the grammar is covered and no interleavings are involved."
+TABLE["C08"] = ("E3", E3I,
+    "Every generated task signature (<=3/4 positional-or-keyword parameters over un-annotated/Any/int/str/model/dataclass + defaulted/dependency/Context kinds, optional keyword-only tail) x every positional/keyword split x 6 value schemes x validate on/off x JSON/pickle goes kiq -> bytes -> Receiver.callback; the function records what it got; reference = inspect.Signature.bind_partial + TypeAdapter. Plus loads(dumps(m)) == m for every built message and importable formatter.",
+    E3NOTE + " ORJSON/MsgPack/CBOR are not importable here.", "DESIGN.md 2.3, 3/C08")
+TABLE["C09"] = ("E3", E3G,
+    "(a) every label dict of <=2 entries over a 23-value alphabet of the five primitive types, set on task or kicker, JSON and pickle, observed in middleware/Context/stored result on first delivery and after every sequence of <=2/3 retry/requeue steps through the real closed loop; (b) BFS over kicker operation sequences (depth 3/4, ordinary and shared task) with the reference 'declared + own overrides'.",
+    E3NOTE, "DESIGN.md 2.3, 3/C09")
+TABLE["C11"] = ("E3", E3G,
+    "Closed loop kiq -> bytes -> Receiver.callback with the real SimpleRetryMiddleware for every attempt-outcome sequence up to 8 attempts x max_retries 0..6 (int label / str label / default) x retry_on_error (bool/str label, defaults) x no_result_on_retry x user labels; reference: executions = min(first non-fail, max(1, max_retries)), identity and labels per attempt, stored-result count and content.",
+    E3NOTE, "DESIGN.md 2.3, 3/C11")
+TABLE["C13"] = ("E3", E3I,
+    "get_task_delay under a scripted clock for every minute of the listed days (DST transition days of three zones, year/leap boundaries) x offsets (none, 'UTC', six timedeltas, eight IANA zones incl. 30/45-minute ones): the exact expression of the expected local minute must be due, every single-field neighbour must not, the dom/dow either-rule pair, and 14 grammar expressions against an independent matcher on zoneinfo time.",
+    E3NOTE + " zoneinfo (system tzdata) is the reference for offsets; instants where it disagrees with pytz are excluded and counted; random instants are sampling and not performed.", "DESIGN.md 2.3, 3/C13")
+TABLE["C16"] = ("E3", E3G,
+    "(A) TaskiqScheduler.on_ready for every schedule payload x source callback flavour x cancel x kick failure against the reference callback sequence and decoded payload; (B) explicit-state BFS over every firing order of the real LabelScheduleSource for every task set in the bound (own + foreign broker tasks, entries over cron/time/duplicate/invalid), reference = list model.",
+    E3NOTE, "DESIGN.md 2.3, 3/C16")
+TABLE["C19"] = ("E3", E3I,
+    "Every exception over 13 class kinds x args of arity <=2 over 21 value kinds, 14 special instances, every linear chain to depth 4/6 with per-edge link kind and every back edge, tree shapes with both links, falsy classes in every chain position; each through JSON-text, JSON-dict, python-dict and pickle round trips of TaskiqResult; oracle: totality, class/args when resolvable+reconstructible+representable else an allowed stand-in, JSON chain structure equals the unfolding with back-edges cut. One known finding (D10) classified by input predicate.",
+    E3NOTE, "DESIGN.md 2.3, 3/C19")
+TABLE["C20"] = ("E3", E3I,
+    "Every (module, dotted type) over a planted module tree with recording traps + harmless real callables x args x 5 placements (top, cause, context, two levels deep) x 3 loaders (exception_to_python, model_validate, model_validate_json); monitors: trap call log, sys.meta_path recorder, sys.modules diff; oracle: exception or SecurityError/ValidationError, no non-exception call, no import, unresolved -> synthetic class.",
+    E3NOTE + " Attribute hooks that run on plain getattr (module __getattr__, descriptors) are not planted.", "DESIGN.md 2.3, 3/C20")
 NOT_YET = {f"C{i:02d}": _PENDING for i in range(1, 21)}
